@@ -212,6 +212,9 @@ pub struct SConf {
     pub interval: Option<usize>,
     pub levels: Option<u8>,
     pub creator: CreatorKind,
+    /// order in which the builder's setters are called (they commute: the built sorter must not depend on it)
+    #[serde(default)]
+    pub order: u8,
 }
 
 impl SConf {
@@ -224,6 +227,34 @@ impl SConf {
     }
 
     pub fn apply<MFn, CC>(&self, b: &mut grenad::SorterBuilder<MFn, CC>) {
+        // the setters in a rotated / reversed order chosen by `order`
+        let steps: [u8; 4] = match self.order % 6 {
+            0 => [0, 1, 2, 3],
+            1 => [2, 0, 1, 3],
+            2 => [3, 2, 1, 0],
+            3 => [1, 3, 0, 2],
+            4 => [2, 3, 0, 1],
+            _ => [3, 0, 2, 1],
+        };
+        for st in steps {
+            match st {
+                0 => self.apply_threshold(b),
+                1 => self.apply_capacity(b),
+                2 => {
+                    b.allow_realloc(self.allow_realloc);
+                }
+                _ => self.apply_rest(b),
+            }
+        }
+    }
+
+    fn apply_capacity<MFn, CC>(&self, b: &mut grenad::SorterBuilder<MFn, CC>) {
+        if let Some(c) = self.init_cap {
+            b.verif_initial_capacity(c.max(16));
+        }
+    }
+
+    fn apply_threshold<MFn, CC>(&self, b: &mut grenad::SorterBuilder<MFn, CC>) {
         match self.threshold {
             Threshold::Exact(n) => {
                 b.verif_dump_threshold_exact(n);
@@ -233,10 +264,9 @@ impl SConf {
             }
             Threshold::Default => {}
         }
-        if let Some(c) = self.init_cap {
-            b.verif_initial_capacity(c.max(16));
-        }
-        b.allow_realloc(self.allow_realloc);
+    }
+
+    fn apply_rest<MFn, CC>(&self, b: &mut grenad::SorterBuilder<MFn, CC>) {
         b.max_nb_chunks(self.max_nb_chunks);
         b.sort_algorithm(if self.stable { grenad::SortAlgorithm::Stable } else { grenad::SortAlgorithm::Unstable });
         b.sort_in_parallel(self.parallel);
@@ -293,9 +323,10 @@ pub fn sconf_small() -> BoxedStrategy<SConf> {
         any::<bool>(),
         prop_oneof![3 => Just(false), 1 => Just(true)],
         chunk,
+        0u8..6,
         prop_oneof![6 => Just(CreatorKind::CursorVec), 1 => Just(CreatorKind::TempFile), 4 => Just(CreatorKind::Instrumented), 1 => Just(CreatorKind::InstrumentedReentrant), 2 => Just(CreatorKind::InstrumentedStaging)],
     )
-        .prop_map(|(thr, cap, allow_realloc, max_nb_chunks, stable, parallel, (chunk_codec, chunk_level, block_size, interval, levels), creator)| {
+        .prop_map(|(thr, cap, allow_realloc, max_nb_chunks, stable, parallel, (chunk_codec, chunk_level, block_size, interval, levels), order, creator)| {
             // the initial capacity never exceeds the budget (DESIGN 6.5)
             let init_cap = Some(cap.unwrap_or(thr).min(thr));
             let chunk_level = match chunk_codec {
@@ -315,6 +346,7 @@ pub fn sconf_small() -> BoxedStrategy<SConf> {
                 interval,
                 levels,
                 creator,
+                order,
             }
         })
         .boxed()
